@@ -4,6 +4,7 @@ import (
 	"encoding/json"
 	"fmt"
 	"sort"
+	"strings"
 )
 
 // Universe is one generated namespace: named types plus (optionally) resources.
@@ -47,6 +48,22 @@ func (u *Universe) Fixed(name string, size int) *Type {
 func (u *Universe) Typeref(name string, prim Kind) *Type {
 	return u.add(&Type{Kind: Typeref, Name: name, Elem: P(prim)})
 }
+// CustomFiles returns the hand-written implementations of the universe's custom typerefs, keyed by
+// their path below the package root.
+func (u *Universe) CustomFiles() map[string]string {
+	out := map[string]string{}
+	for _, t := range u.order {
+		if t.Kind == Typeref && t.Custom {
+			ns := t.NS
+			if ns == "" {
+				ns = u.NS
+			}
+			out[strings.ReplaceAll(ns, ".", "/")+"/"+t.Name+".go"] = customTyperefFile(ns[strings.LastIndex(ns, ".")+1:], t.Name, t.Elem.Kind)
+		}
+	}
+	return out
+}
+
 func (u *Universe) CustomTyperef(name string, prim Kind) *Type {
 	return u.add(&Type{Kind: Typeref, Name: name, Elem: P(prim), Custom: true})
 }
@@ -152,6 +169,11 @@ func (u *Universe) Leaves(withCustom bool) []*Type {
 	for _, k := range []Kind{Int32, Int64, Float32, Float64, Bool, String, Bytes} {
 		out = append(out, u.Typeref(names[k], k))
 	}
+	if withCustom {
+		// custom typerefs (v2: hand-written Go types with their own marshalling, equality and hash; the root
+		// generation treats them as ordinary typerefs)
+		out = append(out, u.CustomTyperef("CtString", String), u.CustomTyperef("CtLong", Int64), u.CustomTyperef("CtBytes", Bytes))
+	}
 	small := u.Record("RecSmall", nil, Req("a", P(Int32)), Opt("b", P(String)))
 	out = append(out, small)
 	out = append(out, u.Union("USmall", false, MemberOf(P(Int32)), MemberOf(P(String)), MemberOf(small)))
@@ -182,7 +204,7 @@ func (u *Universe) Wrapper(t *Type) *Type {
 //                  and depth-3 spines, include chains, wide unions
 func CodecUniverse(level string) *Universe {
 	u := NewUniverse("u")
-	leaves := u.Leaves(false)
+	leaves := u.Leaves(true)
 	d0 := leaves
 	var d1, d2 []*Type
 	for _, t := range d0 {
@@ -257,6 +279,9 @@ func (u *Universe) wideUnions(full bool) {
 	trs := u.ByName["TrString"]
 	fx := u.ByName["Fx2"]
 	kinds := []*Type{P(Int64), P(Bytes), e3, small, ArrayOf(P(String)), MapOf(P(Int32)), trs, fx, P(Float64), P(Bool)}
+	if ct := u.ByName["CtLong"]; ct != nil {
+		kinds = append(kinds, ct)
+	}
 	var ms []*Member
 	for _, k := range kinds {
 		ms = append(ms, MemberOf(k))
@@ -384,9 +409,7 @@ func (u *Universe) ManifestV2(packageRoot string) []byte {
 func (u *Universe) SpecRoot() []byte {
 	dts := []interface{}{}
 	for _, t := range u.order {
-		if t.Custom {
-			continue
-		}
+		// the root generation has no custom typerefs: they are ordinary typerefs there
 		dts = append(dts, u.dataTypeJSONFor(t, false))
 	}
 	res := []interface{}{}
